@@ -108,6 +108,14 @@ pub fn run(ctx: &Ctx, model: &mut Model, rep: &mut Report) {
     if let Some(path) = &ctx.replay {
         let v: serde_json::Value = serde_json::from_str(&std::fs::read_to_string(path).unwrap()).unwrap();
         rep.evaluations += 1;
+        if v["kind"] == "reader_outline" {
+            if let Some(c) = crate::events::compare_flat(model, v["text"].as_str().unwrap_or("")) {
+                if c.grammar == "complete" && c.levels.2 != c.levels.1 {
+                    rep.fail(json!({"kind": "reader_outline", "key": v["key"], "text": v["text"], "what": format!("the reader's top-level headings have the levels {:?}, the parser reported {:?}", c.levels.2, c.levels.1)}));
+                }
+            }
+            return;
+        }
         if let Some(what) = check_doc(v["key"].as_str().unwrap_or("a"), v["text"].as_str().unwrap_or("")) {
             rep.fail(json!({"kind": "outline", "key": v["key"], "text": v["text"], "what": what}));
         }
